@@ -288,6 +288,169 @@ theorem nodup_itemsKids_keys (ks : List (τ × TNode τ α)) (hnd : (keys ks).No
       exact hnd.1 (heq.1 ▸ child_some_mem_keys hn)
 end
 
+/-! ### the explicit-stack generators `items()` / `prefixes()` / `values()` -/
+
+/-- number of nodes on a stack -/
+def stackSize : List (TNode τ α × List τ) → Nat
+  | [] => 0
+  | np :: rest => size np.1 + stackSize rest
+
+theorem stackSize_append (a b : List (TNode τ α × List τ)) :
+    stackSize (a ++ b) = stackSize a + stackSize b := by
+  induction a with
+  | nil => simp [stackSize]
+  | cons x xs ih => simp [stackSize, ih]; omega
+
+theorem stackSize_reverse (a : List (TNode τ α × List τ)) :
+    stackSize a.reverse = stackSize a := by
+  induction a with
+  | nil => rfl
+  | cons x xs ih => simp [stackSize_append, stackSize, ih]; omega
+
+theorem stackSize_kids (ks : List (τ × TNode τ α)) (pre : List τ) :
+    stackSize (ks.map fun tc => (tc.2, pre ++ [tc.1])) = sizeKids ks := by
+  induction ks with
+  | nil => rfl
+  | cons x xs ih => obtain ⟨tok, c⟩ := x; simp [stackSize, sizeKids, ih]
+
+/-- what one stack entry (node, prefix of the node) contributes: the listing of the node with
+the prefix put in front of every key -/
+def entryItems (np : TNode τ α × List τ) : List (List τ × α) :=
+  (items np.1).map fun kv => (np.2 ++ kv.1, kv.2)
+
+theorem flatMap_entryItems_kids (ks : List (τ × TNode τ α)) (pre : List τ) :
+    (ks.map fun tc => (tc.2, pre ++ [tc.1])).flatMap entryItems
+      = (itemsKids ks).map fun kv => (pre ++ kv.1, kv.2) := by
+  induction ks with
+  | nil => simp [itemsKids]
+  | cons x xs ih =>
+    obtain ⟨tok, c⟩ := x
+    simp only [List.map_cons, List.flatMap_cons, ih, itemsKids, List.map_append, List.map_map]
+    congr 1
+    simp [entryItems, Function.comp_def]
+
+/-- the loop of `items()`, run with enough fuel, yields a permutation of the listings of the
+nodes on its stack -/
+theorem itemsLoop_perm (fuel : Nat) (stack : List (TNode τ α × List τ))
+    (h : stackSize stack ≤ fuel) :
+    (itemsLoop fuel stack).Perm (stack.flatMap entryItems) := by
+  induction fuel generalizing stack with
+  | zero =>
+    cases stack with
+    | nil => simp [itemsLoop]
+    | cons np rest =>
+      obtain ⟨⟨val, c, ks⟩, pre⟩ := np
+      simp [stackSize, size] at h
+  | succ fuel ih =>
+    cases stack with
+    | nil => simp [itemsLoop]
+    | cons np rest =>
+      obtain ⟨⟨val, c, ks⟩, pre⟩ := np
+      simp only [stackSize, size] at h
+      have hsz : stackSize ((ks.map fun tc => (tc.2, pre ++ [tc.1])).reverse ++ rest) ≤ fuel := by
+        rw [stackSize_append, stackSize_reverse, stackSize_kids]; omega
+      have h1 := ih _ hsz
+      simp only [itemsLoop, List.flatMap_cons]
+      have h2 : (((ks.map fun tc => (tc.2, pre ++ [tc.1])).reverse ++ rest).flatMap entryItems).Perm
+          (((itemsKids ks).map fun kv => (pre ++ kv.1, kv.2)) ++ rest.flatMap entryItems) := by
+        rw [List.flatMap_append, ← flatMap_entryItems_kids]
+        exact List.Perm.append_right _ ((List.reverse_perm _).flatMap_right _)
+      have h3 : entryItems (TNode.mk val c ks, pre)
+          = val.toList.map (fun v => (pre, v)) ++ (itemsKids ks).map fun kv => (pre ++ kv.1, kv.2) := by
+        simp [entryItems, items, Function.comp_def]
+      rw [h3, List.append_assoc]
+      exact List.Perm.append_left _ (h1.trans h2)
+
+/-- **`items()`** (the stack generator) yields a permutation of the specification listing -/
+theorem itemsIter_perm (t : TNode τ α) : t.itemsIter.Perm t.items := by
+  have h := itemsLoop_perm t.size [(t, [])] (by simp [stackSize])
+  simpa [itemsIter, entryItems] using h
+
+/-- the loop of `prefixes()` yields the first components of what the loop of `items()` yields,
+in the same order -/
+theorem prefixesLoop_eq (fuel : Nat) (stack : List (TNode τ α × List τ)) :
+    prefixesLoop fuel stack = (itemsLoop fuel stack).map Prod.fst := by
+  induction fuel generalizing stack with
+  | zero => simp [prefixesLoop, itemsLoop]
+  | succ fuel ih =>
+    cases stack with
+    | nil => simp [prefixesLoop, itemsLoop]
+    | cons np rest =>
+      obtain ⟨⟨val, c, ks⟩, pre⟩ := np
+      simp [prefixesLoop, itemsLoop, ih, Function.comp_def]
+
+/-- the loop of `values()` (a stack of bare nodes) yields the second components of what the
+loop of `items()` yields, in the same order -/
+theorem valuesLoop_eq (fuel : Nat) (stack : List (TNode τ α × List τ)) :
+    valuesLoop fuel (stack.map Prod.fst) = (itemsLoop fuel stack).map Prod.snd := by
+  induction fuel generalizing stack with
+  | zero => simp [valuesLoop, itemsLoop]
+  | succ fuel ih =>
+    cases stack with
+    | nil => simp [valuesLoop, itemsLoop]
+    | cons np rest =>
+      obtain ⟨⟨val, c, ks⟩, pre⟩ := np
+      have hst : (ks.map Prod.snd).reverse ++ rest.map Prod.fst
+          = (((ks.map fun tc => (tc.2, pre ++ [tc.1])).reverse ++ rest).map Prod.fst) := by
+        simp [List.map_reverse, Function.comp_def]
+      simp only [List.map_cons, valuesLoop, itemsLoop]
+      rw [hst, ih, List.map_append, List.map_map]
+      congr 1
+      cases val <;> simp
+
+theorem prefixes_eq (t : TNode τ α) : t.prefixes = t.itemsIter.map Prod.fst :=
+  prefixesLoop_eq _ _
+
+theorem values_eq (t : TNode τ α) : t.values = t.itemsIter.map Prod.snd :=
+  valuesLoop_eq t.size [(t, [])]
+
+/-- **`prefixes()`** yields a permutation of the keys of the listing -/
+theorem prefixes_perm (t : TNode τ α) : t.prefixes.Perm (t.items.map Prod.fst) := by
+  rw [prefixes_eq]; exact (itemsIter_perm t).map _
+
+/-- **`values()`** yields a permutation of the values of the listing -/
+theorem values_perm (t : TNode τ α) : t.values.Perm (t.items.map Prod.snd) := by
+  rw [values_eq]; exact (itemsIter_perm t).map _
+
+theorem mem_prefixes (t : TNode τ α) (p : List τ) :
+    p ∈ t.prefixes ↔ p ∈ t.items.map Prod.fst := (prefixes_perm t).mem_iff
+
+theorem nodup_prefixes (t : TNode τ α) (h : Wf t) : t.prefixes.Nodup :=
+  (prefixes_perm t).nodup_iff.2 (nodup_items_keys t h)
+
+/-! ### association lists with distinct keys as sets of pairs -/
+
+theorem nodup_of_nodup_keys {κ β : Type} {m : List (κ × β)} (h : (m.map Prod.fst).Nodup) :
+    m.Nodup := by
+  rw [List.nodup_iff_pairwise_ne] at h ⊢
+  rw [List.pairwise_map] at h
+  exact List.Pairwise.imp (fun hab e => hab (by rw [e])) h
+
+/-- in a dictionary (distinct keys) the pairs are the graph of the lookup -/
+theorem mem_iff_child {κ β : Type} [DecidableEq κ] (m : List (κ × β)) (h : (keys m).Nodup)
+    (k : κ) (v : β) : (k, v) ∈ m ↔ child m k = some v := by
+  induction m with
+  | nil => simp
+  | cons hd tl ih =>
+    obtain ⟨k', v'⟩ := hd
+    simp only [keys, List.map_cons, List.nodup_cons] at h
+    simp only [List.mem_cons, Prod.mk.injEq, child]
+    by_cases hk : k' = k
+    · subst hk
+      simp only [if_true, Option.some.injEq, true_and]
+      constructor
+      · rintro (h1 | h1)
+        · exact h1.symm
+        · exact absurd (List.mem_map.2 ⟨(k', v), h1, rfl⟩) h.1
+      · intro h1; exact Or.inl h1.symm
+    · simp only [hk, if_false]
+      rw [← ih h.2]
+      constructor
+      · rintro (h1 | h1)
+        · exact absurd h1.1.symm hk
+        · exact h1
+      · intro h1; exact Or.inr h1
+
 /-! ### longest matching prefix -/
 
 /-- "value of the longest prefix of `q` on which `g` is defined", for a lookup function `g` -/
